@@ -704,12 +704,33 @@ func (e *secretExec) step(s *SecStep) {
 			if bytes.Equal(k, p.Key) {
 				continue
 			}
-			m := e.withStored(e.stored)
+			m := e.withStored(append([]byte{}, e.stored...))
 			got, err := e.read(m, "k", k)
 			o.Fault("wrong_key")
 			e.sig("otherkey:"+name, fmt.Sprint(err != nil))
 			if err == nil {
 				o.Violate("C19", "wrong-key-accepted", fmt.Sprintf("reading with a different key (%s) returned %d bytes without an error", name, len(got)), nil)
+			}
+			// a refused read leaves everything as it was: the value still reads with the right key
+			// (from the same object and from a clone of it) and the stored bytes are the same
+			o.Eval("C19")
+			after, gerr := m.GetBytes("k")
+			if gerr != nil || !bytes.Equal(after, e.stored) {
+				o.Violate("C19", "failed-read-changed-stored", fmt.Sprintf("after a read with a different key (%s) was refused, the stored value is no longer what it was", name), map[string]string{"after": "wrong-key"})
+				return
+			}
+			for _, who := range []string{"same object", "clone"} {
+				var rd interface {
+					GetEncryptedString(string, []byte) (string, error)
+					GetEncryptedBytes(string, []byte) ([]byte, error)
+				} = m
+				if who == "clone" {
+					rd = m.ReadOnly().WriteableClone()
+				}
+				if back, rerr := e.read(rd, "k", p.Key); rerr != nil || !bytes.Equal(back, p.Plain) {
+					o.Violate("C19", "roundtrip", fmt.Sprintf("after a read with a different key (%s) was refused, the right key no longer reads the value back (%s; error: %v)", name, who, rerr != nil), map[string]string{"after": "wrong-key"})
+					return
+				}
 			}
 		}
 	case "badkey":
